@@ -67,7 +67,7 @@ def gen_system(r, live):
         init[solid] = r.choice([0.0, 0.0, _logu(r, -6, -1), _logu(r, -3, 0)])
         spec = {"kind": "precip:" + regime + (":solid" if init[solid] > 0 else ":nosolid"), "species": names,
                 "eqs": [{"name": salt, "reac": dict(reac), "prod": dict(prod), "K": K}]}
-        coupled = {"caf2": ["hf"], "agcl": ["ag1", "ag2"]}.get(salt)
+        coupled = {"caf2": ["hf"], "agcl": ["ag1", "ag2"], "agi": ["ag1", "ag2"]}.get(salt)
         if coupled and r.random() < 0.6:
             # one solid coupled to a homogeneous equilibrium that binds or frees one of its ions
             for e in coupled[: r.randint(1, len(coupled))]:
@@ -141,8 +141,9 @@ def gen_case(seed, run, tier):
         chain = rs.choices(["log", "lin", "loglin", "square", "linrel"], [5, 3, 5, 1.5, 0.25])[0]
         op = {"op": "root", "chain": chain, "rref_equil": rs.random() < 0.25, "rref_preserv": rs.random() < 0.25,
               "x0": None, "werror": rs.random() < 0.15}
-        if rs.random() < 0.25:
-            op["x0"] = [max(init[n] * rw.uniform(0.2, 5.0), 1e-12) if n != "H2O" else 55.5 for n in spec["species"]]
+        if rs.random() < 0.3:
+            hi = rw.choice([5.0, 5.0, 60.0])
+            op["x0"] = [max(init[n] * rw.uniform(0.2, hi), 1e-12) if n != "H2O" else 55.5 for n in spec["species"]]
         if roll < 0.62:
             pass
         elif roll < 0.76:
@@ -151,12 +152,40 @@ def gen_case(seed, run, tier):
             op = {"op": "roots", "chain": rs.choice(["log", "loglin", "lin"]), "varied": vk,
                   "values": [10 ** (lo + d) for d in sorted(rw.uniform(-1.5, 1.5) for _ in range(rw.randint(3, 5)))]}
         elif roll < 0.88:
-            vk = rw.choice([n for n in spec["species"] if n != "H2O"])
+            cands = [n for n in spec["species"] if n != "H2O"]
+            vk = rw.choice(cands)
             lo = math.log10(max(init[vk], 1e-7))
             op = {"op": "solve", "varied": {vk: [10 ** (lo + d) for d in sorted(rw.uniform(-1, 1) for _ in range(rw.choice([1, 2, 3])))]}}
+            if len(cands) >= 2 and rw.random() < 0.3:
+                k1, k2 = rw.sample(cands, 2)
+                # two varied substances, given in the OPPOSITE of substance order
+                if spec["species"].index(k1) < spec["species"].index(k2):
+                    k1, k2 = k2, k1
+                op = {"op": "solve", "varied": OrderedDict([
+                    (k1, [max(init[k1], 1e-7) * f for f in (0.5, 2.0)]), (k2, [max(init[k2], 1e-7) * f for f in (0.3, 3.0)])])}
         elif len(spec["eqs"]) == 1 and not precip:
             op = {"op": "brentq"}
         ops.append(op)
+    if precip and not spec["kind"].startswith("precip:coupled"):
+        # the user fixes the phase assumption (neqsys_type='static_conditions'); asserted only when the assumption is the
+        # true one (own arithmetic: ion product after dissolving all solid vs Ksp)
+        e0 = spec["eqs"][0]
+        solid = [n for n in e0["reac"] if EQ.is_solid(n)][0]
+        q_all = 1.0
+        for n, nu in e0["prod"].items():
+            q_all *= (init[n] + nu * init[solid]) ** nu
+        if abs(q_all / e0["K"] - 1) > 1e-3 and rs.random() < 0.6:
+            truth = q_all > e0["K"]
+            ops.append({"op": "root", "chain": rs.choice(["log", "lin", "loglin"]), "rref_equil": False, "rref_preserv": False, "x0": None,
+                        "werror": False, "static": truth, "pre_static": rs.random() < 0.6})
+    if single and rw.random() < 0.4:
+        e = rw.choice(EQ.OVERALL)
+        rr, pp, lk = EQ.EQUILIBRIA[e]
+        names = list(rr) + list(pp)
+        rw.shuffle(names)
+        spec = {"kind": "homog:1", "species": names, "eqs": [{"name": e, "reac": dict(rr), "prod": dict(pp), "K": 10 ** (lk + rw.uniform(-2, 2))}]}
+        init = {n: _logu(rw, -6, -1) for n in names}
+        ops = [o for o in ops if o["op"] != "roots" and o["op"] != "solve" and not o.get("x0")]
     if single:
         ops.insert(0, {"op": "brentq"})
         if rw.random() < 0.5:
@@ -254,7 +283,9 @@ def call_op(ctx, op, faults, reuse, eqsys=None):
                 kw = {}
                 if op.get("x0") is not None:
                     kw["x0"] = np.array(op["x0"], dtype=float)
-                if reuse:
+                if op.get("static") is not None:
+                    kw.update(NumSys=_numsys(op["chain"]), neqsys_type="static_conditions", precipitates=(bool(op["static"]),))
+                elif reuse:
                     kw["neqsys"] = ctx.neqsys(op)
                 else:
                     kw.update(NumSys=_numsys(op["chain"]), rref_equil=bool(op.get("rref_equil")), rref_preserv=bool(op.get("rref_preserv")))
@@ -283,16 +314,19 @@ def call_op(ctx, op, faults, reuse, eqsys=None):
 
                 es._solve = recording_solve
                 try:
-                    res = es.solve(dict(zip(ctx.names, ctx.init)), varied={k: list(v) for k, v in op["varied"].items()})
+                    res = es.solve(dict(zip(ctx.names, ctx.init)), varied=OrderedDict((k, list(v)) for k, v in op["varied"].items()))
                 finally:
                     del es.__dict__["_solve"]
                 own.extend(_own_residual(nfo, nr, scale) for nfo in infos)
-                (vk, vals), = op["varied"].items()
-                vidx = ctx.names.index(vk)
-                for i, val in enumerate(vals):
+                # documented semantics: one axis per varied substance, axes in SUBSTANCE order
+                import itertools
+
+                vkeys = [k for k in ctx.names if k in op["varied"]]
+                for index in itertools.product(*[range(len(op["varied"][k])) for k in vkeys]):
                     c0 = list(ctx.init)
-                    c0[vidx] = float(val)
-                    points.append((c0, [float(v) for v in res.conc[i]], bool(res.success[i]), bool(res.sane[i])))
+                    for ax, k in enumerate(vkeys):
+                        c0[ctx.names.index(k)] = float(op["varied"][k][index[ax]])
+                    points.append((c0, [float(v) for v in res.conc[index]], bool(res.success[index]), bool(res.sane[index])))
             elif op["op"] == "brentq":
                 from chempy._equilibrium import solve_equilibrium
 
@@ -514,6 +548,14 @@ def execute(case):
 
     for op in case["ops"]:
         faults0 = op.get("faults") or []
+        if op.get("static") is not None:
+            if op.get("pre_static"):
+                # same EqSystem, opposite phase assumption first: its result is the user's business and is not judged
+                rec0 = call_op(ctx, dict(op, static=not op["static"]), [], False)
+                hist.append(dict(_hist(op, rec0), decoy=True))
+                bump("static_decoy_calls")
+            one(op, faults0, False, "static")
+            continue
         if faults0 or case.get("enumerate") is None:
             one(op, faults0, bool(op.get("reuse")), "explicit")
             continue
